@@ -7,7 +7,7 @@ Driver component `close` (property C08).
 For every line of a session the driver
  1. parses the events and digests printed by the harness, feeds them to the spec monitor `IceSpec.C08.Mon`
     (→ `MONITOR` when the IMPLEMENTATION's history violates a clause of the property), and
- 2. replays the operation on the shutdown model `IceModel.CloseSys`: new API calls become model threads, handler
+ 2. (not for sessions whose id starts with `m`: monitor only) replays the operation on the shutdown model `IceModel.CloseSys`: new API calls become model threads, handler
     invocations become drainer programs, blocked socket writes become tasks blocked in the loop; the model is then
     run to quiescence by a greedy scheduler — EVERY transition it takes is validated by `CloseSys.step` — and the
     model's quiescent state (which calls have returned, `done`, Closed, per-candidate `closeCh`/`closedCh`, notifier
@@ -556,7 +556,11 @@ def step (s : State) (toks : List String) (impl : String) : State × Res :=
     (s, { model := s!"r1:ran=0:bad=0:of={n}", prop := "C08" })
   | "new" :: id =>
     if impl.startsWith "err:" then (({} : Sess), { model := "recorded", monitor := some ("session could not start: " ++ impl), prop := "C08" })
-    else (({ witness := (id.headD "").startsWith "w" } : Sess), { model := impl })
+    else
+      -- session ids: `w…` the deadlock witness; `m…` monitor only — the session's environment lies outside the model's
+      -- assumptions (M2: a socket Close that is slow; writes that neither the deadline nor Close releases; the TCP mux,
+      -- which the model does not describe), so only the spec monitor judges it
+      (({ witness := (id.headD "").startsWith "w", dead := (id.headD "").startsWith "m" } : Sess), { model := impl })
   | op :: args =>
     if impl.startsWith "PANIC" || impl.startsWith "WATCHDOG" || impl.startsWith "SESSION-DIED" || impl.startsWith "bad-op" then
       bad ("(C) " ++ impl)
